@@ -79,6 +79,30 @@ MUTS = [
  ('R5-json-guard', 'websocket.py', 'if kwargs and _obj is not Ellipsis:', 'if kwargs or _obj is not Ellipsis:', ['C03'], 'fail'),
  ('R6-json-which', 'websocket.py', 'json.dumps(_obj if _obj is not Ellipsis else kwargs)', 'json.dumps(kwargs if _obj is not Ellipsis else _obj)', ['C03'], 'fail'),
  ('R7-tobytes-fin', 'frame.py', "            payload=self.payload,\n            rsv1=self.rsv1,", "            payload=self.payload,\n            fin=self.fin,\n            rsv1=self.rsv1,", ['C03'], 'fail'),
+ # ---- sites added by helper SITES (T = behaviour-changing, U = behaviour-preserving)
+ ('T1-onevent-names', 'session.py', "        elif event.name == 'ping':\n            if auto_pong:", "        elif event.name == 'pong':\n            if auto_pong:", ['C15'], 'fail'),
+ ('T2-onevent-autopong', 'session.py', "            if auto_pong:\n                self._send_pong(event)", "            if not auto_pong:\n                self._send_pong(event)", ['C15'], 'fail'),
+ ('T3-onpong-zero', 'session.py', "        self._last_pong = self.session_time", "        self._last_pong = 0.0", ['C15'], 'fail'),
+ ('T4-onready-nextping', 'session.py', "        self._next_ping = 0.0", "        self._next_ping = 30.0", ['C15'], 'fail'),
+ ('T5-sessiontime-swapped', 'session.py', "            time.time() - self._start_time", "            self._start_time - time.time()", ['C15'], 'fail'),
+ ('T6-feed-closing', 'websocket.py', "        if self.is_closed:\n            return\n        # The state", "        if self.is_closing:\n            return\n        # The state", ['C08'], 'fail'),
+ ('T7-active-or', 'websocket.py', "return not self.state.closing and not self.state.closed", "return not self.state.closing or not self.state.closed", ['C08'], 'fail'),
+ ('T8-binary-always-z', 'websocket.py', "        if compress and self.state.compression:\n            self.session.send_compressed(\n                Opcode.BINARY", "        if self.state.compression:\n            self.session.send_compressed(\n                Opcode.BINARY", ['C06'], 'fail'),
+ ('T9-text-or', 'websocket.py', "        if compress and self.state.compression:\n            self.session.send_compressed(\n                Opcode.TEXT", "        if compress or self.state.compression:\n            self.session.send_compressed(\n                Opcode.TEXT", ['C06'], 'fail'),
+ ('T10-cont-order', 'stream.py', "if frame.is_continuation and not self._frames:", "if frame.is_continuation and self._frames:", ['C01'], 'fail'),
+ ('T11-build-nofin', 'stream.py', "                if frame.fin:\n                    yield self.build_message(self._frames)", "                if not frame.fin:\n                    yield self.build_message(self._frames)", ['C01'], 'fail'),
+ ('T12-text-errclass', 'message.py', "            raise errors.CriticalProtocolError(\n                'payload contains invalid utf-8; {}',", "            raise errors.ProtocolError(\n                'payload contains invalid utf-8; {}',", ['C01'], 'fail'),
+ ('T13-sel-nopending', 'selectors.py', "if hasattr(self._socket, 'pending') and self._socket.pending():", "if hasattr(self._socket, 'pending') and not self._socket.pending():", ['C18'], 'fail'),
+ ('T14-proxy-scheme', 'session.py', "'https' if self.websocket.is_secure else 'http'", "'http' if self.websocket.is_secure else 'https'", [], 'fail'),
+ ('U1-onevent-reordered', 'session.py', "            self._on_ready()\n            self._ready = True", "            self._ready = True\n            self._on_ready()", ['C15'], 'pass'),
+ ('U2-onready-int', 'session.py', "        self._next_ping = 0.0", "        self._next_ping = 0", ['C15'], 'pass'),
+ ('U3-sessiontime-flipped', 'session.py', "            0.0\n            if self._start_time is None else\n            time.time() - self._start_time", "            time.time() - self._start_time\n            if self._start_time is not None else\n            0.0", ['C15'], 'pass'),
+ ('U4-feed-not', 'websocket.py', "        if self.is_closed:\n            return\n        # The state", "        if self.state.closed:\n            return\n        # The state", ['C08'], 'pass'),
+ ('U5-active-demorgan', 'websocket.py', "return not self.state.closing and not self.state.closed", "return not (self.state.closing or self.state.closed)", ['C08'], 'pass'),
+ ('U6-binary-and-swapped', 'websocket.py', "        if compress and self.state.compression:\n            self.session.send_compressed(\n                Opcode.BINARY", "        if self.state.compression and compress:\n            self.session.send_compressed(\n                Opcode.BINARY", ['C06'], 'pass'),
+ ('U7-cont-swapped', 'stream.py', "if frame.is_continuation and not self._frames:", "if not self._frames and frame.is_continuation:", ['C01'], 'pass'),
+ ('U8-sel-ne0', 'selectors.py', "if hasattr(self._socket, 'pending') and self._socket.pending():", "if hasattr(self._socket, 'pending') and self._socket.pending() != 0:", ['C18'], 'pass'),
+ ('U9-proxy-not', 'session.py', "'https' if self.websocket.is_secure else 'http'", "'http' if not self.websocket.is_secure else 'https'", ['C19'], 'pass'),
  ('Q1-or-swapped', 'frame_parser.py', 'if frame.is_text or _is_text_continuation:', 'if _is_text_continuation or frame.is_text:', ['C05'], 'pass'),
  ('Q2-maxbytes-flipped', 'parser.py', 'self.max_bytes is not None and pos > self.max_bytes', 'self.max_bytes is not None and self.max_bytes < pos', ['C10'], 'pass'),
  ('Q3-status-eq', 'websocket.py', 'if response.status_code != 101:', 'if not response.status_code == 101:', ['C10'], 'pass'),
@@ -105,7 +129,8 @@ MUTS = [
 def sha(p):
     return hashlib.sha1(open(p, 'rb').read()).hexdigest()[:10]
 
-GEN_MODS = ['C01_Gen', 'C03_Gen', 'C04_Gen', 'C05_Gen', 'C06_Gen', 'C08_Gen', 'C10_Gen', 'C12_Gen', 'C15_Gen', 'C16_Gen', 'C19_Gen']
+GEN_MODS = ['C01_Gen', 'C03_Gen', 'C04_Gen', 'C05_Gen', 'C06_Gen', 'C08_Gen', 'C10_Gen', 'C12_Gen', 'C15_Gen', 'C16_Gen', 'C19_Gen',
+            'C01_Gen2', 'C06_Gen2', 'C08_Gen2', 'C15_Gen2', 'C18_Gen', 'C19_Gen2']
 
 def companion(c=None):
     """build the companion modules against the Generated/ that is on disk now"""
